@@ -371,7 +371,12 @@ func c12BuildHistories(tier string) core.Source {
 			}
 			// a real session
 			opts := c12SyncOpts[o.arg]
-			dir := workDir()
+			// every sync of this worker uses the SAME directory names, like a long-lived server whose module
+			// content changes between requests: anything the process remembers by path must not go stale
+			dir := filepath.Join(core.Scratch(), fmt.Sprintf("w%d", os.Getpid()), "c12-histories")
+			tm.RemoveAll(dir)
+			os.MkdirAll(dir, 0o755)
+			core.Heartbeat()
 			defer cleanup(dir)
 			c12Materialise(filepath.Join(dir, "src"), st.src)
 			c12Materialise(filepath.Join(dir, "dst"), st.dst)
@@ -705,7 +710,7 @@ func init() {
 		ID:    "C12",
 		Level: "model_checking",
 		Rule: "table: the complete decision table {missing, same size, different size} x {mtime equal, +1s, -1s, sub-second only, far apart, previous second +0.6 s, next second +0.4 s, same second +0.999999999 s} x {content equal, different} x {default,-c,-I,-cI} x {-t on/off} plus non-regular destination entries, each embedded at first/middle/last position of a 3-file directory, in both receiver roles (library client vs scripted server; daemon module vs scripted uploading client); the scripted reference sender records the requested indices. " +
-			"histories: explicit-state BFS (canonical-state dedup) over {touch +1s/-1s/+0.5s, rewrite same size, rewrite other size} on 2 source files and sync(o) for o in {-rt,-a,-rc,-rtI,-r} as real lib-pull sessions; every sync's request set (decoded from the wire) must equal the reference rule evaluated on the model state, no-op syncs must move no data, and the model's successor state is validated against the real destination. repeat: whole sessions between the real sender and receiver in 5 arrangements x 6 option sets run twice over a tree of boundary mtimes (0, +-1, pre-1970 with fraction, -2^31, 2^31-1, .999999999) x sizes {0,700} incl. nested entries and symlinks: the second run must leave every entry the same file system object with identical metadata (with -I: every file replaced, nothing else changed); and the -c rule judged with the real sender's list checksums for 10 sizes 0..1 MiB around its 256 KiB buffer (equal content / other mtime must stay, equal size+mtime / one differing byte must be replaced); and sparse files of 2^31-1, 2^31, 3 GiB, 2^32-1, 2^32, 2^32+5, 5 GiB that are up to date must not be transferred again. states = table cells + distinct BFS states, transitions = sessions",
+			"histories: explicit-state BFS (canonical-state dedup; all syncs of a worker run in the same directory, as against a long-lived server) over {touch +1s/-1s/+0.5s, rewrite same size, rewrite other size} on 2 source files and sync(o) for o in {-rt,-a,-rc,-rtI,-r} as real lib-pull sessions; every sync's request set (decoded from the wire) must equal the reference rule evaluated on the model state, no-op syncs must move no data, and the model's successor state is validated against the real destination. repeat: whole sessions between the real sender and receiver in 5 arrangements x 6 option sets run twice over a tree of boundary mtimes (0, +-1, pre-1970 with fraction, -2^31, 2^31-1, .999999999) x sizes {0,700} incl. nested entries and symlinks: the second run must leave every entry the same file system object with identical metadata (with -I: every file replaced, nothing else changed); and the -c rule judged with the real sender's list checksums for 10 sizes 0..1 MiB around its 256 KiB buffer (equal content / other mtime must stay, equal size+mtime / one differing byte must be replaced); and sparse files of 2^31-1, 2^31, 3 GiB, 2^32-1, 2^32, 2^32+5, 5 GiB that are up to date must not be transferred again. states = table cells + distinct BFS states, transitions = sessions",
 		Assum: []string{"reference rule as stated in the property", "mtimes written as 'now' by a transfer never equal the alphabet's source mtimes (2009)"},
 		Parts: func(tier string) []core.Part {
 			return []core.Part{{Name: "table", Build: c12BuildTable}, {Name: "histories", Build: c12BuildHistories}, {Name: "repeat", Build: c12BuildRepeat}}
